@@ -869,7 +869,7 @@ pub fn run(s: &Session) {
     }
 
     // ---- (b) ----
-    s.forall("generated-values", s.pick(300_000, 6_000_000), value_case, check_value);
+    s.forall("generated-values", s.pick(1_000_000, 10_000_000), value_case, check_value);
     if !s.replaying() {
         let mut missing = vec![];
         for t in TYPES {
